@@ -191,10 +191,58 @@ func nilFilterKnown(s *searchInfo, st *flow.State, level string) bool {
 // keyShape extracts the components of the cache key built in fn: a list of
 // ("var", rendering-without-receiver) / ("const", value).
 func keyShape(c *core.Ctx, f *flow.Func) ([][2]string, ast.Node) {
+	shape, at := keyShapeIn(c, f)
+	if shape != nil {
+		return shape, at
+	}
+	// the key may be built by a same-package helper taking the request
+	for _, call := range calls(f.Body, false) {
+		fo, ok := f.Callee(call).(*types.Func)
+		if !ok || fo.Pkg() == nil || fo.Pkg() != f.Pkg.Types {
+			continue
+		}
+		sig := fo.Type().(*types.Signature)
+		if sig.Results().Len() != 1 || sig.Results().At(0).Type().String() != "string" {
+			continue
+		}
+		for _, file := range f.Pkg.Syntax {
+			for _, d := range file.Decls {
+				if fd, ok := d.(*ast.FuncDecl); ok && fd.Body != nil && f.Info.Defs[fd.Name] == fo {
+					if sh, a := keyShapeIn(c, flow.NewFunc(f.Pkg, fd)); sh != nil {
+						return sh, a
+					}
+				}
+			}
+		}
+	}
+	return nil, nil
+}
+
+func keyShapeIn(c *core.Ctx, f *flow.Func) ([][2]string, ast.Node) {
 	var shape [][2]string
 	var at ast.Node
-	reqName := func(e ast.Expr) (string, bool) {
+	var reqName func(e ast.Expr) (string, bool)
+	reqName = func(e ast.Expr) (string, bool) {
 		// req.Host() / req.Method() / req.Path()  → method name
+		if id, isID := ast.Unparen(e).(*ast.Ident); isID {
+			// a local: exactly one definition, which is itself an accessor call
+			obj := f.Info.Uses[id]
+			var defs []ast.Expr
+			ast.Inspect(f.Body, func(n ast.Node) bool {
+				if as, ok := n.(*ast.AssignStmt); ok && len(as.Lhs) == len(as.Rhs) {
+					for i, l := range as.Lhs {
+						if lid, ok := l.(*ast.Ident); ok && (f.Info.Defs[lid] == obj || f.Info.Uses[lid] == obj) && obj != nil {
+							defs = append(defs, as.Rhs[i])
+						}
+					}
+				}
+				return true
+			})
+			if len(defs) == 1 {
+				return reqName(defs[0])
+			}
+			return "", false
+		}
 		call, ok := ast.Unparen(e).(*ast.CallExpr)
 		if !ok {
 			return "", false
@@ -297,7 +345,7 @@ func c12Key(c *core.Ctx) {
 			}
 			vars++
 			if len(p[1]) > 0 && p[1][0] == '?' {
-				injective, why = false, "component "+p[1]+" is not a request accessor"
+				injective, why = false, "component "+p[1]+" is not a request accessor itself but a value derived from it (a lossy transformation such as cutting at a colon maps different hosts to one key)"
 			}
 			// next component (if any variable follows) must be a non-empty constant
 			if i+1 < len(sh) && sh[i+1][0] == "var" {
